@@ -96,7 +96,8 @@ fn mix<'a>() -> impl Parser<'a, &'a str, Out, Ex<'a>> + Clone + Send + Sync {
 fn uni<'a>() -> impl Parser<'a, &'a str, Out, Ex<'a>> + Clone + Send + Sync {
     let kw = text::unicode::keyword("été").to(1i64);
     let id = text::unicode::ident().map(|s: &str| 100 + s.chars().count() as i64);
-    let sym = one_of("→≠+").to(2i64);
+    // (any symbol: every non-identifier character is looked up by `ident` first)
+    let sym = any().filter(|c: &char| !c.is_alphanumeric() && !c.is_whitespace() && *c != '_').to(2i64);
     choice((kw, id, sym)).padded().repeated().at_least(1).collect::<Vec<i64>>()
 }
 
@@ -152,7 +153,9 @@ const POOLS: [&[&str]; NZ] = [
     &["1+2*3", "-1^2!", "2 * (3", "4!+5"],
     &["1 2 3;", "1 300 2;", "1 x 2;", "1 2"],
     &["(let, ab, x1)", "fn abc 12", "(ac, 12345, )", "(let ; ab)", "lettuce ab"],
-    &["néé caféé", "a→ p≠ q", "été étéé", "αβγ→δ", "x+y"],
+    // (the last three: every letter and every symbol of the Latin-1 block, interleaved — dense in distinct
+    // non-ASCII characters of both classes, so that any small table keyed by code point sees collisions)
+    &["néé caféé", "a→ p≠ q", "été étéé", "αβγ→δ", "x+y", "à¡á¢â£ã¤ä¥å¦æ§ç¨è©é«ê¬ë®ì¯í°î±ï²ð³ñ´ò¶ó¸ô¹õ»ö¼ø½ù¾ú¿û×ü÷ýþÿ", "÷ÿ×¿ý¾½û¼»ù¹¸ö¶´ô³²ò±°ð¯®î¬«ì©¨ê§¦è¥¤æ£¢ä¡âà", "àáâ¡ ãäå¤ æçè§ éêë« ìíî¯ ïðñ² òóô¶ õöø» ùúû¾ üýþ÷ ÿ£"],
     &["v0=10px;", "#a 1\n#b", "ab 12cd", "a#b.c"],
 ];
 
